@@ -77,6 +77,10 @@ def c02(res: Result):
             tasks.append({"tid": f"l{i}", "tt": tt, "cfg": {"maxm": rng.choice([1, 2, 3, 4, 5]), "candlim": 100000, "rsthr": 1000, "simbudget": 1000, "nfvsthr": 2000},
                           "ops": [rng.choice([FULL_BFS, FULL_DFS]), rng.choice([FULL_BFS, FULL_DFS])], "meta": "full expansion under a motif limit"})
     tasks += gadget_tasks("g", [[FULL_BFS], [FULL_DFS]])
+    # the full expansion after the stubs of the first level were queried (their percolated Petri nets are cached by then)
+    stubq = [{"op": "exp", "n": 1}] + [{"op": "cand", "n": k, "greedy": True, "sim": True} for k in (2, 3, 4, 5)]
+    tasks += gadget_tasks("gq", [stubq + [FULL_BFS], stubq + [FULL_DFS]])
+    tasks += feature_tasks("fq", [stubq + [FULL_BFS], stubq + [FULL_DFS]], kinds=["new_source", "modules", "deep"], max_n=6)
     tasks += feature_tasks("f", [[FULL_BFS], [FULL_DFS]], max_n=6)
     invs = ["Inv_WF", "Inv_PartialFaithful", "Inv_FullExact", "Inv_MinExact"]
     res.cov["rule"] = ("TLC explores BFS/DFS/single expansions on all 256 two-variable networks; the real library runs a full "
@@ -490,6 +494,11 @@ def c12(res: Result):
                 qs.append({"op": o, "n": k, "fallback": False})
         t = {"tid": f"r{i}", "tt": tt, "ops": pre + qs, "meta": "sets in various orders"}
         tasks.append(t)
+        # unminimised candidates first (several candidates per attractor reach the symbolic elimination), then seeds and sets
+        if i % 4 == 1:
+            tasks.append({"tid": f"u{i}", "tt": tt, "meta": "raw candidates, seeds, sets",
+                          "ops": pre + [{"op": o, "n": k, "greedy": False, "sim": False, "fallback": False}
+                                        for k in (1, 2, 3) for o in ("cand", "seeds", "sets")]})
         # the symbolic fallback: force the candidate pipeline to fail with a tiny candidate limit
         if i % 3 == 0:
             tasks.append({"tid": f"f{i}", "tt": tt, "cfg": {"maxm": 100000, "candlim": rng.choice([0, 1]), "rsthr": 1000, "simbudget": 1000, "nfvsthr": 2000},
@@ -497,8 +506,11 @@ def c12(res: Result):
                           "meta": "symbolic fallback (candidate limit forces RuntimeError)"})
     tasks += feature_tasks("f", [[{"op": "sets", "n": 1}], [FULL_BFS] + [{"op": "sets", "n": k} for k in range(1, 9)],
                                  [{"op": "exp", "n": 1}] + [{"op": o, "n": k} for k in (1, 2, 3) for o in ("seeds", "reclaim", "sets")]])
+    rawq = [{"op": o, "n": 1, "greedy": False, "sim": False, "fallback": False} for o in ("cand", "seeds", "sets")]
+    tasks += feature_tasks("fu", [rawq, [{"op": "exp", "n": 1}] + rawq], kinds=["complex_attr", "multi_complex_in_min_trap", "maa", "multi_attr_in_min_trap", "sync_escape"], max_n=6)
+    tasks += gadget_tasks("gu", [rawq, [{"op": "exp", "n": 1}] + rawq])
     invs = ["Inv_SetsFresh", "Inv_CacheFresh", "Inv_HANG"]
-    res.cov["rule"] = ("Attractor sets requested before/after seeds and candidates, after reclamation and pickling, on expanded and unexpanded "
+    res.cov["rule"] = ("Attractor sets requested before/after seeds and candidates (also unminimised candidates on unexpanded nodes), after reclamation and pickling, on expanded and unexpanded "
                        "nodes; and seeds via the symbolic fallback (forced by a tiny candidate limit). TLC checks that set i is exactly the "
                        "attractor containing seed i, over all variables, and that fallback seeds are exactly the node's own attractors. Twin runs "
                        "(relation 'fallback'): one history with the default method and with every seed computed by the forced fallback, on "
@@ -872,6 +884,8 @@ def run_control_theorems(res: Result, invariants: list[str], mutations: dict[str
     q = res.tier == Q
     runs = [("all2", "BoundsFull", 1, None, [])]
     runs.append(("file", "BoundsQuick" if q else "BoundsFull", 0 if q else 1, "catalogue.ndjson", []))
+    if not q:
+        runs.append(("file", "BoundsQuick", 0, "catalogue_control4.ndjson", []))      # thorough: 150 four-variable networks x 80 targets
     for mut, must in mutations.items():
         runs.append(("all2", "BoundsQuick", 0, None, [mut] + must))
     for k, (netmode, bounds, maxforb, cat, mut) in enumerate(runs):
